@@ -336,7 +336,7 @@ func malformed(r *vgen.Rng, src, dst string) Case {
 }
 
 func gen(r *vgen.Rng, tier string) []Case {
-	nWf, nBad := 110, 25
+	nWf, nBad := 80, 20
 	if tier == "thorough" {
 		nWf, nBad = 4000, 1000
 	}
@@ -358,5 +358,22 @@ func gen(r *vgen.Rng, tier string) []Case {
 			}
 		}
 	}
-	return out
+	// histories over one set of long-lived objects, spread evenly over the shards
+	nSeq := 180
+	if tier == "thorough" {
+		nSeq = 3000
+	}
+	every := len(out)/nSeq + 1
+	var mixed []Case
+	for i, c := range out {
+		if i%every == 0 && nSeq > 0 {
+			mixed = append(mixed, genSeq(r))
+			nSeq--
+		}
+		mixed = append(mixed, c)
+	}
+	for ; nSeq > 0; nSeq-- {
+		mixed = append(mixed, genSeq(r))
+	}
+	return mixed
 }
